@@ -164,6 +164,8 @@ package http2
 //@ -- index of the first setting with the given id among the first n, or -1
 //@ pure func firstSetting(p seq[byte], id int, n int) int = ite(n <= 0, -1, ite(firstSetting(p, id, n-1) >= 0, firstSetting(p, id, n-1), ite(settingID(p, n-1) == id, n-1, -1)))
 
+//@ lemma [C19:first-stays] firstStays(p seq[byte], id int, k int, m int) induction m from 0 = k <= m && firstSetting(p, id, k) >= 0 ==> firstSetting(p, id, m) == firstSetting(p, id, k)
+
 //@ func (*SettingsFrame).NumSettings :: f -> n
 //@   props C19,C10,C03
 //@   requires f != nil
@@ -190,6 +192,7 @@ package http2
 //@   ensures [C19:value-first-match] ok <==> firstSetting(f.p, id, len(f.p)/6) >= 0
 //@   ensures [C19:value-of-first-match] ok ==> v == settingVal(f.p, firstSetting(f.p, id, len(f.p)/6))
 //@   loop 1 invariant 0 <= i && i <= len(f.p)/6 && firstSetting(f.p, id, i) == -1
+//@   use firstStays(f.p, id, i+1, len(f.p)/6)
 
 //@ func parseSettingsFrame :: fc, fh, countError, p -> f, err
 //@   props C19,C10,C12
